@@ -24,14 +24,14 @@ PROPS = {
                 rand_quick=6000, rand_thorough=120000, extra_clauses=["times_off_grid"]),
     "C07": dict(ops=["eraseRegion"], kinds=["I", "P"],
                 quick=dict(N=5, K=2), thorough=dict(N=6, K=3),
-                plans_quick=[("dy", "ascii"), ("dec", "uni"), ("c7", "ascii")],
-                plans_thorough=[("dy", "ascii"), ("dec", "uni"), ("c7", "quote"), ("big", "ascii"), ("tiny", "uni")],
+                plans_quick=[("dy", "ascii"), ("dec", "uni"), ("c7", "ascii"), ("far", "ascii", 4), ("neg", "ascii", 4)],
+                plans_thorough=[("dy", "ascii"), ("dec", "uni"), ("c7", "quote"), ("big", "ascii"), ("tiny", "uni"), ("far", "ascii", 2), ("neg", "ascii", 2)],
                 rand_quick=12000, rand_thorough=300000,
                 extra_clauses=["times_off_grid", "C05_raw_float_wellformed"]),
     "C08": dict(ops=["insertSpace", "spaceErase"], kinds=["I", "P"],
                 quick=dict(N=5, K=2), thorough=dict(N=7, K=3),
-                plans_quick=[("dy", "ascii"), ("dec", "uni"), ("c7", "ascii")],
-                plans_thorough=[("dy", "ascii"), ("dec", "uni"), ("c7", "quote"), ("big", "ascii"), ("tiny", "uni")],
+                plans_quick=[("dy", "ascii"), ("dec", "uni"), ("c7", "ascii"), ("far", "ascii", 4), ("neg", "ascii", 4)],
+                plans_thorough=[("dy", "ascii"), ("dec", "uni"), ("c7", "quote"), ("big", "ascii"), ("tiny", "uni"), ("far", "ascii", 2), ("neg", "ascii", 2)],
                 rand_quick=12000, rand_thorough=300000,
                 extra_clauses=["times_off_grid", "C05_raw_float_wellformed"]),
     "C09": dict(ops=["editTimestamps", "editRoundTrip", "appendTier"], kinds=["I", "P"],
